@@ -482,3 +482,12 @@ def run_c09(prop, tier, seed, replay, t0):
 
 
 PROPS["C09"] = {"run": run_c09}
+
+CAT_KINDS = {"create-stream", "update-stream", "delete-stream", "purge-stream", "create-topic", "update-topic",
+             "delete-topic", "purge-topic", "create-parts", "delete-parts", "create-group", "delete-group",
+             "join", "leave", "group", "groups", "me", "close", "figures", "topics", "restart", "send",
+             "poll-status", "poll-offsets", "poll-content", "poll-cur"}
+PROPS["C05"] = catalog("C05", "Iggy.Props.C05", ["obs-changed-restart", "poll-"], CAT_KINDS,
+                       ASSUME_NODE + ["transport: binary (TCP) only in this round; the HTTP handlers journal through the same EntryCommand path (the same fix applies to both) but are not driven by the harness yet"])
+PROPS["C06"] = catalog("C06", "Iggy.Props.C06", ["obs-changed", "poll-"], CAT_KINDS,
+                       ASSUME_NODE + ["transport: binary (TCP) only in this round"])
